@@ -120,21 +120,24 @@ class RegexFacade:
         self.subject_cap = 14
         self.inject_timeouts = False
         self.timeouts_injected = 0
+        self.premature_left = 0       # injected timeouts that arrive EARLY on the wall clock (the engine measures CPU time
+                                      # of the whole process: with other threads busy its allowance is spent sooner)
 
     def reset(self, mode='pass'):
         self.inject_timeouts = False
         self.timeouts_injected = 0
+        self.premature_left = 0
         self.mode = mode
         self.clock = 0.0
         self.entries = []
         self.compiles = 0
 
-    def charge(self, fn, timeout, plen=0, slen=0):
+    def charge(self, fn, timeout, plen=0, slen=0, fraction=1.0):
         self.entries.append((fn, timeout, plen, slen))
         ok = isinstance(timeout, (int, float)) and not isinstance(timeout, bool) and 0 < timeout < float('inf')
-        self.clock += float(timeout) if ok else float('inf')
+        self.clock += float(timeout) * fraction if ok else float('inf')
         if ok:
-            VCLOCK.advance(float(timeout))      # worst case: the engine used its whole allowance
+            VCLOCK.advance(float(timeout) * fraction)      # worst case: the engine used its whole allowance
 
     def should_time_out(self, pattern, subject):
         """Fault injection: for an adversarial (pattern, subject) pair the stub engine behaves as the real one does when
@@ -270,7 +273,10 @@ def _install_regex():
                 ptxt = getattr(a[0], 'pattern', a[0]) if a else ''
                 plen = len(ptxt) if isinstance(ptxt, str) else 0
                 subj = a[2] if _name in ('sub', 'subn', 'subf', 'subfn') and len(a) > 2 else (a[1] if len(a) > 1 else k.get('string', ''))
-                REGEX.charge(_name, k.get('timeout'), plen, len(subj) if isinstance(subj, str) else 0)
+                early = REGEX.premature_left > 0 and REGEX.should_time_out(a[0] if a else None, subj) and k.get('timeout') is not None
+                if early:
+                    REGEX.premature_left -= 1
+                REGEX.charge(_name, k.get('timeout'), plen, len(subj) if isinstance(subj, str) else 0, fraction=0.2 if early else 1.0)
                 k = dict(k)
                 k['timeout'] = REGEX.real_timeout
                 # the real engine only sees a short prefix of the subject: always fast, so no verdict or event ever
